@@ -221,47 +221,48 @@ Theorem C16_io_poll_respects_timeout :
 Proof. exact io_poll_respects_timeout. Qed.
 Print Assumptions C16_io_poll_respects_timeout.
 
-(* "each retry passes exactly given - elapsed-so-far": true for the first retry ... *)
-Theorem C16_io_poll_first_retry_exact :
-  forall T e o, 0 <= e < T ->
-  nth_call 0 (io_poll false T (PIntr e :: o)) = Some (T, 0) /\
-  nth_call 1 (io_poll false T (PIntr e :: o)) = Some (T - e, e).
-Proof. exact io_poll_first_retry_exact. Qed.
-Print Assumptions C16_io_poll_first_retry_exact.
+(* each retry passes exactly given - elapsed-so-far (full statement since /repo c841fbc; the
+   only other call is the non-blocking probe of the metrics variant, at time 0) *)
+Theorem C16_io_poll_retry_exact :
+  forall metrics T o,
+  0 <= T -> r_ok (io_poll metrics T o) = true ->
+  Forall (fun c => fst c = T - snd c \/ (metrics = true /\ c = (0, 0))) (r_calls (io_poll metrics T o)).
+Proof. exact io_poll_retry_exact. Qed.
+Print Assumptions C16_io_poll_retry_exact.
 
-(* ... refuted from the second retry on: base is never advanced, so the time since entry is
-   subtracted again from the already reduced real_timeout; the function wakes up early *)
-Theorem C16_io_poll_retry_exact_refuted :
-  exists T o,
-    r_ok (io_poll false T o) = true /\
-    nth_call 2 (io_poll false T o) = Some (700, 200) /\ 700 <> T - 200 /\
-    r_end (io_poll false T o) = PeTimeout /\ r_blocked (io_poll false T o) < T.
-Proof. exact io_poll_retry_exact_refuted. Qed.
-Print Assumptions C16_io_poll_retry_exact_refuted.
-
-(* interrupted calls: for the same reason even an interruption that reports no elapsed time
-   changes the wake-up time once something has elapsed ... *)
-Theorem C16_io_poll_eintr_transparent_refuted :
-  r_blocked (io_poll false 1000 [PIntr 100; PIntr 0]) <> r_blocked (io_poll false 1000 [PIntr 100]).
-Proof. exact io_poll_zero_intr_not_transparent. Qed.
-Print Assumptions C16_io_poll_eintr_transparent_refuted.
-
-(* ... what holds: a storm of k interruptions that report no elapsed time, in front of any
-   script, changes neither the wake-up time nor what follows; one interruption of any length is
-   exact; the metrics variant continues exactly like the plain one after its non-blocking probe *)
-Theorem C16_io_poll_eintr_transparent_partial :
-  (forall T k o, (0 < T \/ T = -1) ->
-     pobs (io_poll false T (repeat (PIntr 0) k ++ o)) = pobs (io_poll false T o)) /\
-  (forall T e, 0 <= e < T ->
-     r_blocked (io_poll false T [PIntr e]) = T /\ r_end (io_poll false T [PIntr e]) = PeTimeout /\
-     r_blocked (io_poll false T []) = T /\ r_end (io_poll false T []) = PeTimeout) /\
+(* interrupted calls are transparent: any two runs of interruptions that report the same total
+   elapsed time (any number, any lengths), in front of any script, give the same wake-up time,
+   the same ending and the same validity; with nothing but interruptions the poll wakes up
+   exactly when its timeout is over; the metrics variant continues exactly like the plain one
+   after its non-blocking probe *)
+Theorem C16_io_poll_eintr_transparent :
+  (forall T es1 es2 o,
+     Forall (fun e => 0 <= e) es1 -> Forall (fun e => 0 <= e) es2 ->
+     fold_right Z.add 0 es1 = fold_right Z.add 0 es2 -> fold_right Z.add 0 es1 < T ->
+     pobs (io_poll false T (map PIntr es1 ++ o)) = pobs (io_poll false T (map PIntr es2 ++ o))) /\
+  (forall T es, Forall (fun e => 0 <= e) es -> fold_right Z.add 0 es < T ->
+     r_blocked (io_poll false T (map PIntr es)) = T /\ r_end (io_poll false T (map PIntr es)) = PeTimeout /\
+     r_ok (io_poll false T (map PIntr es)) = true) /\
   (forall T o probe, (0 < T \/ T = -1) -> probe = PTimeout \/ probe = PIntr 0 ->
      pobs (io_poll true T (probe :: o)) = pobs (io_poll false T o)).
 Proof.
-  split; [exact io_poll_eintr_storm_transparent|]. split; [exact io_poll_single_intr_exact|].
+  split; [exact io_poll_eintr_transparent|]. split; [exact io_poll_wakeup_exact|].
   exact io_poll_metrics_reduces.
 Qed.
-Print Assumptions C16_io_poll_eintr_transparent_partial.
+Print Assumptions C16_io_poll_eintr_transparent.
+
+(* history: before c841fbc base was never advanced; from the second retry on the time since
+   entry was subtracted again, the poll woke up early, and even an interruption reporting no
+   elapsed time moved the wake-up (it does not on the current code) *)
+Theorem C16_io_poll_unfixed_refuted :
+  (exists T o,
+    r_ok (io_poll_unfixed T o) = true /\
+    nth_call 2 (io_poll_unfixed T o) = Some (700, 200) /\ 700 <> T - 200 /\
+    r_end (io_poll_unfixed T o) = PeTimeout /\ r_blocked (io_poll_unfixed T o) < T) /\
+  r_blocked (io_poll_unfixed 1000 [PIntr 100; PIntr 0]) <> r_blocked (io_poll_unfixed 1000 [PIntr 100]) /\
+  r_blocked (io_poll false 1000 [PIntr 100; PIntr 0]) = r_blocked (io_poll false 1000 [PIntr 100]).
+Proof. split; [exact io_poll_unfixed_retry_exact_refuted | exact io_poll_unfixed_not_transparent]. Qed.
+Print Assumptions C16_io_poll_unfixed_refuted.
 
 (* ---- the hypotheses are satisfiable / the models run ----------------------------------------------- *)
 Example C16_example :
